@@ -440,26 +440,24 @@ theorem C04_fallback_on_error_code :
   simp only [getApiVersion, fetchApiVersions, apiVersionAttempts, fetchLoop, hd, handleApiVersionUpdate]
   rfl
 
-/-- **The public `fetch_api_versions()` forgets a successful discovery** (observation, modelled as
-    written): called in any state but the undiscovered one it performs no request, returns
-    `ApiVersionResponse(-1, [])` and leaves the client in the fallback state for good; from the
-    undiscovered state it leaves the state the discovery loop computes.  Afterwards every produce and
-    fetch request carries version 0 (and the producer writes format 0, `C04_fallback_zero`), and the
-    reply is decoded with the version-0 decoder: the requests still conform, the broker's newer
-    versions are no longer used. -/
-theorem C04_refetch_forgets_table :
-    (∀ t attempts, fetchApiVersionsCall (.table t) attempts = some (.ok (.legacy, -1, [])))
+/-- **The public `fetch_api_versions()` keeps a successful discovery** (it used to forget it: a second
+    call answered `ApiVersionResponse(-1, [])` and left the client in the fallback state for good;
+    repaired): called with a discovered table it performs no request, answers with that table and
+    leaves it; in the fallback state it stays there; from the undiscovered state it leaves the state
+    the discovery loop computes.  So the version chosen after any number of calls is the one
+    `C04_version_choice` speaks about. -/
+theorem C04_refetch_keeps_table :
+    (∀ v vs attempts, fetchApiVersionsCall (.table (v :: vs)) attempts = some (.ok (.table (v :: vs), 0, v :: vs)))
     ∧ (∀ attempts, fetchApiVersionsCall .legacy attempts = some (.ok (.legacy, -1, [])))
+    ∧ (∀ attempts, fetchApiVersionsCall (.table []) attempts = some (.ok (.legacy, -1, [])))
     ∧ (∀ attempts, (fetchApiVersionsCall .undiscovered attempts).map (fun r => r.map (·.1)) = fetchApiVersions attempts)
-    ∧ (∀ attempts acks, sendProduceVersions .legacy attempts acks
-        = some (.ok (.legacy, 0, if acks = 0 then none else some 0)))
-    ∧ (∀ attempts, sendFetchVersions .legacy attempts = some (.ok (.legacy, 0, 0))) := by
+    ∧ (∀ key, lookupVersion key (.table []) = lookupVersion key .legacy ∧ producerMagic (.table []) = producerMagic .legacy) := by
   refine ⟨?_, ?_, ?_, ?_, ?_⟩
-  · intro t attempts; rfl
+  · intro v vs attempts; rfl
+  · intro attempts; rfl
   · intro attempts; rfl
   · intro attempts; exact fetchLoopCall_state _ attempts
-  · intro attempts acks; rfl
-  · intro attempts; rfl
+  · intro key; exact ⟨rfl, rfl⟩
 
 /-! ## the glue of `KafkaClient.send_produce_request` / `send_fetch_request` -/
 
@@ -802,7 +800,7 @@ C04_fallback_on_error_code
 C04_glue_produce
 C04_glue_fetch
 C04_discovery_outcomes
-C04_refetch_forgets_table
+C04_refetch_keeps_table
 C04_guard_exact
 C04_duplicate_refused
 C04_produce_total
